@@ -17,6 +17,7 @@ import JsonV.Lemmas.QuoteCanon
 import JsonV.Lemmas.QuoteRaw
 import JsonV.Lemmas.GlueQuote
 import JsonV.Lemmas.QuoteSpan
+import JsonV.Lemmas.QuoteJString
 import JsonV.Gen.Lits
 
 namespace JsonV.Props.C11
@@ -283,6 +284,17 @@ theorem glue_errInj_injective : ∀ a b, errInj a = errInj b → a = b := errInj
 theorem string_iff_quote (b : Bytes) (v : Bool) (n : Nat) :
     (∃ nc, consumeString v b = (n, Err.ok, nc)) ↔ n ≤ b.length ∧ JsonV.Spec.Grammar.JString v (b.take n) :=
   JsonV.Lemmas.GlueQuote.consumeString_grammar b v n
+
+/-- **For slice C02 (`quote_escaped_full`)**: AppendQuote's output is a string literal of C01's grammar — in the strict
+sense (well-formed UTF-8, no unpaired surrogate) as well as the lenient one — for EVERY EscapeForHTML / EscapeForJS /
+AllowInvalidUTF8 combination and every input; its unquote is the (lossy) input by `unquote_quote_lossy`. -/
+theorem quote_is_jstring (f : QFlags) (v : Bool) (s : Bytes) : JsonV.Spec.Grammar.JString v (appendQuote f s).1 :=
+  JsonV.Lemmas.QuoteJString.appendQuote_is_jstring f v s
+
+/-- the scanner consumes the whole quoted form without error, every flag set -/
+theorem quote_consumed (v : Bool) (f : QFlags) (s : Bytes) :
+    ∃ nc, consumeString v (appendQuote f s).1 = ((appendQuote f s).1.length, Err.ok, nc) :=
+  JsonV.Lemmas.QuoteJString.consumeString_appendQuote v f s
 
 /-- This slice's RFC 8259 meaning theorem, for C01's `unquote`. -/
 theorem wire_unquote_meaning (lit m : Bytes) (h : StringLiteral lit m) :
